@@ -8,7 +8,8 @@ Set Warnings "-ambiguous-paths".
 From Coquelicot Require Import Coquelicot.
 From PyLib Require Import PyVal PyBuiltins Ideal.
 From Gen Require Import M_base M_Angle M_Interpolation.
-From Proofs.C12 Require C12_defs C12_main C12_gen C12_gend C12_rootany.
+From Proofs.C12 Require C12_defs C12_main C12_gen C12_gend C12_rootany C12_order.
+From Coq Require Import Permutation Sorted.
 From Spec Require Newton.
 From Proofs.C12 Require Import C12_tac C12_nd C12_dup3 C12_ctor3 C12_ctor4 C12_ideal C12_root C12_witness.
 Import ListNotations.
@@ -297,6 +298,31 @@ Theorem C12_refused_any : forall (xs ys tbl : list R) x,
   Interpolation___call__ Rops (C12_gen.tobj xs ys (C12_gen.flist tbl)) (VFloat x) = VErr ValueError.
 Proof. intros xs ys tbl x Hy Ht Hn Ho Ha. apply C12_gen.call_outside; assumption. Qed.
 
+(* [ideal] _order_points on raw stored lists of ANY length n >= 1 with pairwise different abscissae (the generated
+   selection loop: n times the first index of the minimum of the working copy, overwritten by max(x) + 1; then
+   the index list is turned into ordinates): the stored abscissae are STRICTLY INCREASING and the stored
+   (x, y) pairs are a permutation of the given ones.  C12_order.sx/sy are the lists the loop produces
+   (defined by the pure selection function C12_order.sel).  Hence the second half of set() - _order_points,
+   _compute_table, __call__ at the nodes - is proved for every n in 1..64 (C12_order.stored_pipeline);
+   the first half (reading the arguments into the raw lists, duplicate test) is proved for n = 3, 4 only. *)
+Theorem C12_order_points_any : forall (px py : list R) (tb : val R),
+  List.length py = List.length px -> px <> [] -> NoDup px ->
+  let xs' := C12_order.sx px in let ys' := C12_order.sy px py in
+  Interpolation__order_points Rops (C12_gen.tobj px py tb) = VTuple [C12_gen.tobj xs' ys' tb; VNone] /\
+  StronglySorted Rlt xs' /\ Permutation (combine xs' ys') (combine px py) /\
+  List.length xs' = List.length px /\ List.length ys' = List.length px.
+Proof. exact C12_order.order_any. Qed.
+
+Theorem C12_stored_pipeline_any : forall px py : list R,
+  List.length py = List.length px -> px <> [] -> C12_gen.separated px -> (List.length px <= 64)%nat ->
+  let xs' := C12_order.sx px in let ys' := C12_order.sy px py in
+  Interpolation__order_points Rops (C12_gen.tobj px py (C12_gen.flist [])) = VTuple [C12_gen.tobj xs' ys' (C12_gen.flist []); VNone] /\
+  Interpolation__compute_table Rops (C12_gen.tobj xs' ys' (C12_gen.flist [])) = VTuple [C12_gen.built xs' ys'; VNone] /\
+  (forall j, (j < List.length px)%nat ->
+     Interpolation___call__ Rops (C12_gen.built xs' ys') (VFloat (C12_gen.nthR xs' j)) = VFloat (C12_gen.nthR ys' j)) /\
+  StronglySorted Rlt xs' /\ Permutation (combine xs' ys') (combine px py).
+Proof. exact C12_order.stored_pipeline. Qed.
+
 (* [ideal, n = 3 only, two-list form only] duplicated abscissae (any pair closer than tol) are refused with ValueError (three points, two-list form) *)
 Theorem C12_duplicates : forall p1 p2 p3 q1 q2 q3,
   Rabs (p1 - p2) < tol0 \/ Rabs (p1 - p3) < tol0 \/ Rabs (p2 - p3) < tol0 ->
@@ -437,6 +463,8 @@ Redirect "C12_interpolates_any.assumptions" Print Assumptions C12_interpolates_a
 Redirect "C12_derivative_any.assumptions" Print Assumptions C12_derivative_any.
 Redirect "C12_derivative_two.assumptions" Print Assumptions C12_derivative_two.
 Redirect "C12_refused_any.assumptions" Print Assumptions C12_refused_any.
+Redirect "C12_order_points_any.assumptions" Print Assumptions C12_order_points_any.
+Redirect "C12_stored_pipeline_any.assumptions" Print Assumptions C12_stored_pipeline_any.
 Redirect "C12_root_step.assumptions" Print Assumptions C12_root_step.
 Redirect "C12_root_sound.assumptions" Print Assumptions C12_root_sound.
 Redirect "C12_root_witness.assumptions" Print Assumptions C12_root_witness.
